@@ -25,4 +25,16 @@ let dispatch (cmd : string) (rest : string list) : string =
     evs (adagrid_events fops r1 r2 r3 (nat_of_int n1) (nat_of_int r) (nat_of_int n3))
   | "aim_events" -> let rho = rf () in let t = ri () in let d = ri () in let n = ri () in
     let dec = List.init n (fun _ -> ri () = 1) in evs (aim_events fops rho (nat_of_int t) (nat_of_int d) dec)
+  | "emd" ->
+    (* emd <eta> <total> <n> x0[n] <calls> then per call: loss grad[n]  (first call = at the start) -> final weights, then each query point *)
+    let eta = rf () in let total = rf () in let n = ri () in
+    let rl () = List.init n (fun _ -> rf ()) in
+    let x0 = rl () in
+    let calls = ri () in
+    let ans = List.init calls (fun _ -> let l = rf () in let g = rl () in (l, g)) in
+    (match ans with
+     | [] -> failwith "no oracle answers"
+     | first :: rest ->
+       let (w, trace) = emd_run fops eta total x0 first rest in
+       String.concat " " (List.map (Printf.sprintf "%h") (w @ List.concat trace)))
   | _ -> failwith ("unknown command " ^ cmd)
